@@ -171,6 +171,15 @@ class ndpoly(numpy.ndarray):  # pylint: disable=invalid-name
                 Extra arguments passed to `numpy.ndarray` constructor.
 
         """
+        exponents = numpy.asarray(exponents)
+        if exponents.size and (
+            numpy.any(exponents < 0)
+            or numpy.any(exponents > numpy.iinfo(numpy.uint32).max - cls.KEY_OFFSET)
+        ):
+            raise ValueError(
+                "exponents must be non-negative and fit in 32 bits together "
+                f"with the key offset; found {exponents.min()}..{exponents.max()}"
+            )
         exponents = numpy.array(exponents, dtype=numpy.uint32)
         if numpy.prod(exponents.shape):
             keys = (exponents + cls.KEY_OFFSET).flatten()
